@@ -56,6 +56,11 @@ def make_cases(tier, seed):
                 pol = ["fifo", "lifo", "random"][(i + len(sr)) % 3]
                 cases.append(dict(name=name, g=g, sr=sr, rename=["tuple", "rev"][i % 2],
                                   order=common.perm(len(g.rules), rng), heap=pol, maxlen=maxlen))
+        if g.V and (i < 40 or (tier != "quick" and i % 8 == 0)):
+            # token-id vocabularies with gaps (0, 5, 9, ...): the parsers renumber nonterminals with integers of their own, which must
+            # stay clear of EVERY integer terminal, not only of 0..|V|-1 (strengthened after seeded change C02-9)
+            from vlib import dom_cfg
+            cases.append(dict(name=name + "#ids", g=dom_cfg.int_terminals(g), sr=srs[i % len(srs)], rename="id", order=None, heap="real", maxlen=maxlen))
     return cases
 
 
